@@ -221,10 +221,29 @@ fn c06_one_config(ctx: &Ctx, rep: &mut Report, script_seed: u64, version: Versio
         // caught by the caller and reported)
         use std::io::{BufRead, Read, Seek, Write};
         if let Ok(mut h) = sess.cf().open_stream("/s") {
-            let _ = h.write(&[1, 2, 3]);
+            // half of the time the handle has just used up its window exactly (the next
+            // read has to refill, which is where the missing compound file is noticed)
+            let window = eff_buf(bufsize);
+            let exhausted = script_seed % 32 == 3 && h.len() > window;
+            if exhausted {
+                let mut w = vec![0u8; window as usize];
+                h.read_exact(&mut w).map_err(|e| ("orphan handle | read before the drop failed".to_string(), format!("{e}")))?;
+            } else {
+                let _ = h.write(&[1, 2, 3]);
+            }
             drop(sess.cf.take());
             let mut b = [0u8; 16];
-            let _ = h.read(&mut b);
+            let r = h.read(&mut b);
+            if exhausted {
+                let len = h.len();
+                match (r, h.stream_position()) {
+                    (Err(_), Ok(p)) if p != window => {
+                        return Err(("orphan handle | a failed read moved the position".to_string(), format!("{window} bytes read (position {window}, len {len}), compound file dropped, read() failed, stream_position() = {p}")));
+                    }
+                    _ => {}
+                }
+                rep.count("orphan_handle_scripts_with_exhausted_window");
+            }
             let _ = h.fill_buf().map(|x| x.len());
             let _ = h.seek(SeekFrom::Start(1));
             let _ = h.seek(SeekFrom::End(i64::MIN));
@@ -723,6 +742,124 @@ fn recreate_under_a_handle_episode(sess: &mut Session, rng: &mut Rng, rep: &mut 
     res
 }
 
+/// A handle that is still around after its stream was removed (with unwritten changes or
+/// without), possibly after the freed directory slot was taken by a new stream or storage.
+/// What the old handle's own calls answer is not judged - its stream is gone - but they
+/// answer (a panic is reported by the caller), and they "change only that stream's bytes
+/// and length": every other object is as before, live and in the stored bytes.
+fn handle_after_removal_episode(sess: &mut Session, rng: &mut Rng, rep: &mut Report) -> Result<(), Fail> {
+    use std::io::{Read, Seek, Write};
+    let io = |what: &str| {
+        let w = what.to_string();
+        move |e: std::io::Error| ("harness-or-C01: handle-after-removal episode".to_string(), format!("{w}: {e}"))
+    };
+    let keep_len = *rng.pick(&[100usize, 200, 3000, 5000]);
+    let keep = engine::payload(61, keep_len);
+    let pending = *rng.pick(&[0usize, 5, 100, 300, 5000]);
+    let reuse = rng.below(3); // 0: slot stays free, 1: new stream, 2: new storage
+    let fresh = engine::payload(62, *rng.pick(&[150usize, 4200]));
+    let what_then = rng.below(4);
+    let cf = sess.cf();
+    cf.create_storage("/rm").map_err(io("create_storage"))?;
+    {
+        let mut s = cf.create_stream("/rm/keep").map_err(io("create_stream"))?;
+        s.write_all(&keep).map_err(io("write"))?;
+        s.flush().map_err(io("flush"))?;
+    }
+    let mut old = cf.create_stream("/rm/gone").map_err(io("create_stream"))?;
+    if rng.chance(1, 2) {
+        old.write_all(&[0x11; 40]).map_err(io("write"))?;
+        old.flush().map_err(io("flush"))?;
+    }
+    if pending > 0 {
+        old.write_all(&vec![0x9Au8; pending]).map_err(io("write (left in the buffer)"))?;
+    }
+    cf.remove_stream("/rm/gone").map_err(io("remove_stream"))?;
+    match reuse {
+        1 => {
+            let mut s = cf.create_new_stream("/rm/new").map_err(io("create_new_stream"))?;
+            s.write_all(&fresh).map_err(io("write"))?;
+            s.flush().map_err(io("flush"))?;
+        }
+        2 => {
+            cf.create_storage("/rm/new").map_err(io("create_storage"))?;
+            cf.set_state_bits("/rm/new", 0x5151).map_err(io("set_state_bits"))?;
+        }
+        _ => {}
+    }
+    // the old handle speaks again
+    let log = match what_then {
+        0 => {
+            let a = old.flush().is_ok();
+            drop(old);
+            format!("flush -> {}", if a { "Ok" } else { "Err" })
+        }
+        1 => {
+            drop(old);
+            "dropped".to_string()
+        }
+        2 => {
+            let a = old.set_len(*rng.pick(&[0u64, 150, 5000])).is_ok();
+            let b = old.flush().is_ok();
+            drop(old);
+            format!("set_len -> {}, flush -> {}", if a { "Ok" } else { "Err" }, if b { "Ok" } else { "Err" })
+        }
+        _ => {
+            let a = old.seek(SeekFrom::Start(0)).is_ok();
+            let b = old.write_all(b"0123456789").is_ok();
+            let c = old.flush().is_ok();
+            let mut v = Vec::new();
+            let d = old.seek(SeekFrom::Start(0)).and_then(|_| old.read_to_end(&mut v)).is_ok();
+            drop(old);
+            format!("seek -> {a}, write -> {b}, flush -> {c}, read -> {d}")
+        }
+    };
+    let what = format!("/rm/keep ({keep_len} bytes); /rm/gone created through a handle{}, removed{}; then the old handle: {log}", if pending > 0 { format!(" with {pending} bytes left in its buffer") } else { String::new() }, match reuse { 1 => format!(", /rm/new ({} bytes) created in the freed slot", fresh.len()), 2 => ", storage /rm/new created in the freed slot".to_string(), _ => String::new() });
+    let cf = sess.cf();
+    let mut res: Result<(), Fail> = Ok(());
+    let mut got = Vec::new();
+    match cf.open_stream("/rm/keep").and_then(|mut s| s.read_to_end(&mut got)) {
+        Ok(_) if got == keep => {}
+        Ok(_) => res = Err(("handle after removal | another stream was touched".to_string(), format!("{what}; /rm/keep now reads {}", engine::describe_bytes_diff(&keep, &got)))),
+        Err(e) => res = Err(("handle after removal | another stream was touched".to_string(), format!("{what}; /rm/keep can no longer be read: {e}"))),
+    }
+    if res.is_ok() && reuse == 1 {
+        let mut got = Vec::new();
+        match cf.open_stream("/rm/new").and_then(|mut s| s.read_to_end(&mut got)) {
+            Ok(_) if got == fresh => {}
+            Ok(_) => res = Err(("handle after removal | the stream now in its old slot was touched".to_string(), format!("{what}; /rm/new now reads {}", engine::describe_bytes_diff(&fresh, &got)))),
+            Err(e) => res = Err(("handle after removal | the stream now in its old slot was touched".to_string(), format!("{what}; /rm/new can no longer be read: {e}"))),
+        }
+    }
+    if res.is_ok() && reuse == 2 {
+        match cf.entry("/rm/new") {
+            Ok(e) if e.is_storage() && e.len() == 0 && e.state_bits() == 0x5151 => {}
+            Ok(e) => res = Err(("handle after removal | the storage now in its old slot was touched".to_string(), format!("{what}; /rm/new: is_storage {}, len {}, state {:#x}", e.is_storage(), e.len(), e.state_bits()))),
+            Err(e) => res = Err(("handle after removal | the storage now in its old slot was touched".to_string(), format!("{what}; entry(/rm/new): {e}"))),
+        }
+    }
+    if res.is_ok() && cf.exists("/rm/gone") {
+        res = Err(("handle after removal | the removed stream is back".to_string(), what.clone()));
+    }
+    if res.is_ok() {
+        let bytes = sess.shared.bytes();
+        if let Err(w) = engine::dump_bytes(&bytes, Mode::Strict) {
+            res = Err(("handle after removal | the stored file no longer opens (strict)".to_string(), format!("{what}; {w}")));
+        } else if let Ok(img) = refparse::parse(&bytes) {
+            let r = refparse::check(&img, &bytes);
+            if let Some(v) = r.violations.first() {
+                res = Err((format!("handle after removal | independent parser | rule {}", v.rule), format!("{what}; {}", v.detail)));
+            }
+        }
+    }
+    if res.is_ok() {
+        sess.cf().remove_storage_all("/rm").map_err(io("remove_storage_all"))?;
+    }
+    rep.count("handles_used_after_removal");
+    rep.count(&format!("handle_after_removal.slot_{}", match reuse { 1 => "reused_by_stream", 2 => "reused_by_storage", _ => "left_free" }));
+    res
+}
+
 fn c07_case(ctx: &Ctx, rep: &mut Report, rng: &mut Rng, version: Version, bufsize: Option<usize>, done: &mut Vec<Step>) -> Result<(), Fail> {
     let mut sess = Session::create(version, bufsize).map_err(|e| ("create | ok | err".to_string(), format!("{e}")))?;
     // "every entry's metadata is left as the model predicts" includes the root's: give it
@@ -786,6 +923,10 @@ fn c07_case(ctx: &Ctx, rep: &mut Report, rng: &mut Rng, version: Version, bufsiz
             } else {
                 recreate_under_a_handle_episode(&mut sess, rng, rep)?;
             }
+            continue;
+        }
+        if rng.chance(1, 40) && sess.model.get_path("/rm").is_none() {
+            handle_after_removal_episode(&mut sess, rng, rep)?;
             continue;
         }
         let idx = gen::index(&sess);
